@@ -34,6 +34,12 @@ pub fn failure_traits(cfg: &crate::gen::config::Cfg, input: &[u8]) -> Vec<String
     if crate::gen::text::has_composite_cluster(&s) {
         v.push("composite-cluster".to_string());
     }
+    if crate::gen::text::has_multichar_cluster(&s) {
+        v.push("multi-char-cluster".to_string());
+    }
+    if cfg.has("side-by-side") {
+        v.push("side-by-side".to_string());
+    }
     if cfg.has("color-only") && s.lines().any(|l| l.contains('{')) {
         v.push("color-only+json-line".to_string());
     }
